@@ -74,6 +74,7 @@ package interceptor
 // The interceptor holds exactly the two configured lists.
 //@ contract NewAccessControlInterceptor
 //@   props C15 C16
+//@   assigns nothing
 //@   ensures result != nil && result.adminServiceAccess != nil && result.namespaceAccess != nil
-//@   ensures forall s string :: { auth.allowedIn(result.adminServiceAccess, s) } auth.allowedIn(result.adminServiceAccess, s) <==> (len(adminServiceAllowedMethods) == 0 || exists k int :: 0 <= k && k < len(adminServiceAllowedMethods) && adminServiceAllowedMethods[k] == s)
-//@   ensures forall s string :: { auth.allowedIn(result.namespaceAccess, s) } auth.allowedIn(result.namespaceAccess, s) <==> (len(allowedNamespaces) == 0 || exists k int :: 0 <= k && k < len(allowedNamespaces) && allowedNamespaces[k] == s)
+//@   ensures forall s string :: { s in result.adminServiceAccess.allowedMap } auth.allowedIn(result.adminServiceAccess, s) <==> (len(adminServiceAllowedMethods) == 0 || exists k int :: 0 <= k && k < len(adminServiceAllowedMethods) && adminServiceAllowedMethods[k] == s)
+//@   ensures forall s string :: { s in result.namespaceAccess.allowedMap } auth.allowedIn(result.namespaceAccess, s) <==> (len(allowedNamespaces) == 0 || exists k int :: 0 <= k && k < len(allowedNamespaces) && allowedNamespaces[k] == s)
